@@ -716,6 +716,11 @@ def run(repo: Repo, rep: Report, tier: str) -> None:
     if not dedups:
         rep.ok("C01-R20", "plan_wire_colors keeps one entry per (source, use) at a sink", "no de-duplication by the source alone", pw20.loc())
 
+    # ---------------- R21 --------------------------------------------------------------
+    from .shared import zero_is_a_value as _zero_v
+    _zero_v(repo, rep, "C01-R21")
+
+
 
 def ckey20(f, st) -> str:
     from .util import ckey
